@@ -6,7 +6,7 @@ flags, (b) the generator's own parameter record, (c) the harness' own sine-matri
 import numpy as np
 
 from .core import Violation
-from . import sysgen
+from . import sysgen, physics
 
 TOL = 1e-8
 EPS = np.finfo(float).eps
@@ -126,13 +126,12 @@ def check_closures(pp, spec, P, res, grid, r_user, site, ctx=None):
             if i > j:
                 continue
             p = spec['pairs'][sysgen.pkey(a, b)]
-            u = sysgen.ref_potential(pp, spec, a, b, r_user)
-            cl = sysgen.ref_closure(pp, spec, a, b, r_user, u)
+            # closure and potential from their definitions (simkit.physics), not from the classes under test
+            u = physics.potential(p['potential']['cls'], p['potential']['kw'], sysgen.potential_sigma(spec, a, b), r_user) / spec['kT']
             g_out = h[:, i, j] - c[:, i, j]
             Fr = np.abs(F[:, i, j]) / r_user
             Fr = np.maximum(Fr, np.abs(F[:, j, i]) / r_user)
-            with np.errstate(all='ignore'):
-                cstar = np.asarray(cl.calculate(np.copy(r_user), np.copy(g_out)), dtype=float)
+            cstar = physics.closure(p['closure']['cls'], p['closure']['hc'], sysgen.sigma_ab(spec, a, b), r_user, g_out, u)
             core = r_user <= sysgen.sigma_ab(spec, a, b)
             S = sysgen.closure_slope_sup(p['closure'], g_out - Fr, g_out + Fr, u, core)
             scale = np.maximum(1.0, np.maximum(np.maximum(cb[:, i, j], hb[:, i, j]), np.maximum(np.abs(g_out), np.abs(cstar))))
@@ -163,7 +162,7 @@ def core_masks(spec, r_user):
     for i, a in enumerate(types):
         for j, b in enumerate(types):
             if i <= j and sysgen.is_hard_core(spec, a, b):
-                out[(i, j)] = r_user <= sysgen.sigma_ab(spec, a, b)
+                out[(i, j)] = r_user <= sysgen.core_radius(spec, a, b)
     return out
 
 
